@@ -601,6 +601,8 @@ int main(void)
         } else if (!strcmp(c, "lsspreset")) { LssHave = 1; LssBaud = U(1); LssNode = (uint8_t)U(2); step = 0;
         } else if (!strcmp(c, "init"))  { do_init(); Quiet = 0;
         } else if (!strcmp(c, "restart")) { Tick = 0; HwCnt = 0; do_init();
+        } else if (!strcmp(c, "reinit")) {  /* the documented restart: stop, init and start again on the RAM as it is (no dictionary rebuild) */
+            CONodeStop(Node); LockDepth = 0; RxHave = 0; CONodeInit(Node, &Spec);
         } else if (!strcmp(c, "start")) { CONodeStart(Node);
         } else if (!strcmp(c, "stop"))  { CONodeStop(Node);
         } else if (!strcmp(c, "rx")) {    /* rx idhex dlc datahex */
